@@ -40,10 +40,11 @@ type boxDelivered struct {
 }
 
 type boxWrite struct {
-	Key   string
-	IPs   []string
-	Pool  string
-	Epoch int
+	Key      string
+	IPs      []string
+	Pool     string
+	Epoch    int
+	Versions int // configuration versions delivered when the write happened
 }
 
 type boxMonFlags struct {
@@ -69,16 +70,20 @@ type cbox struct {
 	delivered []*boxDelivered // every version delivered to SetPools (all instances)
 	cur       *boxDelivered   // version the running instance was given last (nil before)
 
+	crashRec  *boxCrashRec
+	touches   map[string]int // user-driven changes per service (create, delete, anything but status/annotation written by the controller)
 	faultPlan []int
 	faultsInjected int
 	writes    []boxWrite
+	memLog    []boxWrite // every change of a service's addresses in the allocator memory
 	epoch     int
 	conflicts int
+	booted    bool
 	handlerCalls int
 }
 
 func newCbox(c *vfCase, mon boxMonFlags, schedSeed uint64) *cbox {
-	cb := &cbox{c: c, mon: mon}
+	cb := &cbox{c: c, mon: mon, touches: map[string]int{}}
 	cb.k = newBoxKernel(c, schedSeed)
 	cb.k.Route = cb.route
 	cb.k.Boot = cb.boot
@@ -107,6 +112,12 @@ func newCbox(c *vfCase, mon boxMonFlags, schedSeed uint64) *cbox {
 func (cb *cbox) route(kind string, key types.NamespacedName, old, new client.Object) []boxEnq {
 	switch kind {
 	case "Service":
+		k := key.Namespace + "/" + key.Name
+		if old == nil || new == nil || boxSpecHash(old.(*v1.Service)) != boxSpecHash(new.(*v1.Service)) {
+			if !cb.k.Booting {
+				cb.touches[k]++
+			}
+		}
 		return []boxEnq{{Rec: "svc", Req: ctrl.Request{NamespacedName: key}}}
 	case "IPAddressPool":
 		if old != nil && new != nil && old.GetGeneration() == new.GetGeneration() {
@@ -186,8 +197,12 @@ func (cb *cbox) boot(k *boxKernel) {
 
 type cboxSvcClient struct{ cb *cbox }
 
-func (s *cboxSvcClient) Infof(svc *v1.Service, desc, msg string, args ...interface{})  {}
-func (s *cboxSvcClient) Errorf(svc *v1.Service, desc, msg string, args ...interface{}) {}
+func (s *cboxSvcClient) Infof(svc *v1.Service, desc, msg string, args ...interface{}) {
+	s.cb.c.Logf("     event %s: %s", desc, fmt.Sprintf(msg, args...))
+}
+func (s *cboxSvcClient) Errorf(svc *v1.Service, desc, msg string, args ...interface{}) {
+	s.cb.c.Logf("     event(error) %s: %s", desc, fmt.Sprintf(msg, args...))
+}
 
 func (s *cboxSvcClient) UpdateStatus(svc *v1.Service) error {
 	cb := s.cb
@@ -219,7 +234,7 @@ func (s *cboxSvcClient) UpdateStatus(svc *v1.Service) error {
 		n.Annotations[k] = v
 	}
 	cb.k.Store.Put(n)
-	w := boxWrite{Key: key, Pool: n.Annotations[AnnotationIPAllocateFromPool], Epoch: cb.epoch}
+	w := boxWrite{Key: key, Pool: n.Annotations[AnnotationIPAllocateFromPool], Epoch: cb.epoch, Versions: len(cb.delivered)}
 	for _, ing := range n.Status.LoadBalancer.Ingress {
 		w.IPs = append(w.IPs, ing.IP)
 	}
